@@ -116,7 +116,7 @@ impl Engine for C18 {
     fn rule(&self, tier: Tier) -> String {
         format!(
             "declaration-structure programs: every declaration variant (class with 0..2 template arguments x parent x no/empty/full body; named and anonymous def x parent x body; defsets empty / with named and anonymous defs / nested / with foreach and class inside; multiclass with 0..2 template arguments x parent, defm named and anonymous) \
-             inside every wrapper path of length <= {} over {{foreach, let, if-then, if-else}} with and without braces, in one- and two-file layouts; plus the well-scoped scope programs of C05 (nesting depth <= {}). \
+             inside every wrapper path of length <= {} over {{foreach, let, if-then, if-else}} with and without braces, in one- and two-file layouts; plus the well-scoped scope programs of C05 (nesting depth <= {}) in the one-file, two-file and diamond layouts (every file's outline is compared). \
              Every program is printed twice: plainly and with a comment after every identifier. Expected outline (ordered top-level list, defset members ordered, other children as multisets) and folding ranges are recorded by the emitter. non-trivial = every program; distinct by construction.",
             tier.pick(3, 5),
             tier.pick(3, 5)
@@ -153,7 +153,9 @@ impl Engine for C18 {
             };
             structure_programs(tier.pick(3, 5), |p| run(ctx, p));
             for_each_path(tier.pick(3, 5), |_, path| {
-                for layout in 0..2 {
+                // one file; the prelude included; a diamond (the prelude included directly and again through a
+                // second file that goes on declaring, plus two included files with identical texts)
+                for layout in [0, 1, 4] {
                     let p = well_scoped(&scope_program(path, 0, layout));
                     if !run(ctx, &p) {
                         return false;
